@@ -230,7 +230,8 @@ class CobaRandom:
         sin  = math.sin
 
         while True:
-            R = sqrt(-2*log(next(self._randu)))
+            #the uniform can be exactly 0 (where log is undefined) so draw again if it is
+            R = sqrt(-2*log(next(self._randu) or next(self._randu)))
             S = 2*pi*next(self._randu)
             yield R*cos(S)
             yield R*sin(S)
